@@ -228,6 +228,8 @@ def gen_cases(tier, seed):
     for nsurf in ([1, 2, 3] if q else [1, 2, 3, 4]):
         for procs in ([2, 4] if q else [2, 4, 8]):
             cases.append(dict(mode='sched_tessellate', nsurf=nsurf, procs=procs))
+            if nsurf >= 2:
+                cases.append(dict(mode='sched_tessellate', nsurf=nsurf, procs=procs, own_delta=True))
     # voxel counts 8, 18 (and 12, 45 in thorough): not all divisible by the worker counts
     for grid in ([[2, 2, 2], [3, 3, 2]] if q else [[2, 2, 2], [3, 2, 2], [3, 3, 2], [5, 3, 3]]):
         for procs in ([2, 4] if q else [2, 4, 8]):
@@ -391,16 +393,19 @@ def _surfaces(n, seed):
     return [S.build(d, seed + i) for i, d in enumerate(descs[:n])]
 
 
-def _tess_result(procs, nsurf, seed):
+def _tess_result(procs, nsurf, seed, own_delta=False):
     from geomdl import multi
     c = multi.SurfaceContainer()
-    for s in _surfaces(nsurf, seed):
+    for k, s in enumerate(_surfaces(nsurf, seed)):
+        if own_delta:
+            s.sample_size_u, s.sample_size_v = 4 + k, 3 + (k % 2)      # every element keeps its own sampling density
         c.add(s)
     c.sample_size = 3
+    kw = dict(delta=False) if own_delta else {}                          # documented option: do not push the container's delta
     if procs == 1:
-        c.tessellate()
+        c.tessellate(**kw)
     else:
-        c.tessellate(num_procs=procs)
+        c.tessellate(num_procs=procs, **kw)
     return dict(vertices=[[v.id, list(v.data), list(v.uv)] for v in c.vertices],
                 faces=[[f.id, list(f.vertex_ids)] for f in c.faces],
                 evalpts=[list(p) for p in c.evalpts])
@@ -490,10 +495,10 @@ def _diff(ref, res):
 
 
 def _sched_tessellate(case, ctx):
-    nsurf, procs = case['nsurf'], case['procs']
-    ref = _tess_result(1, nsurf, ctx.seed)
-    feats = dict(query='tessellate', procs=procs, nsurf=nsurf)
-    _explore(ctx, case, lambda: _tess_result(procs, nsurf, ctx.seed), ref, 'C17.num_procs.tessellate.same_result', feats)
+    nsurf, procs, own = case['nsurf'], case['procs'], bool(case.get('own_delta'))
+    ref = _tess_result(1, nsurf, ctx.seed, own)
+    feats = dict(query='tessellate', procs=procs, nsurf=nsurf, own_delta=own)
+    _explore(ctx, case, lambda: _tess_result(procs, nsurf, ctx.seed, own), ref, 'C17.num_procs.tessellate.same_result', feats)
 
 
 def _sched_voxelize(case, ctx):
